@@ -71,12 +71,19 @@ class RefServer:
         self.last_code_expected = None
         self.last_mux_expected = None
         if not f:
+            # a frame without a command byte is no SDO request: it may be ignored, or refused with one abort (which
+            # then ends a running transfer); nothing else
+            if len(rs) == 1 and len(rs[0]) == 8 and rs[0][0] == 0x80:
+                self.st = None
+            elif rs:
+                probs.append(("empty-request-answered", f"{[bytes(r).hex() for r in rs]}"))
+                self._zombie()
             return probs
         ccs = f[0] >> 5
         if ccs == 4:
             if rs:
                 probs.append(("abort-answered", f"{len(rs)} responses to a client abort"))
-            self._zombie()
+            self.st = None           # an abort ends the transfer (CiA 301): later segments belong to no transfer
             return probs
         if len(rs) != 1:
             probs.append(("count", f"{len(rs)} responses to request {f.hex()}"))
@@ -114,6 +121,8 @@ class RefServer:
             if not ab:
                 probs.append(("not-aborted", f"unknown command specifier answered with {r.hex()}"))
             self._zombie()
+        if ab and ccs not in (5, 6):
+            self.st = None           # the server's own abort ends the transfer as well
         return probs
 
     def _zombie(self):
